@@ -5,6 +5,8 @@ mod case;
 mod ring;
 mod uni;
 mod pool;
+mod stack;
+mod zcq;
 
 use std::io::{BufRead, Write};
 
@@ -26,6 +28,8 @@ fn main() {
             "fsring" => ring::run_fs(&case),
             "uni"  => uni::run(&case),
             "pool" => pool::run(&case),
+            "stack" => stack::run(&case),
+            "zcq" => zcq::run(&case),
             other  => panic!("unknown case kind '{other}'"),
         };
         let text: Vec<String> = trace.iter().map(|v| v.to_string()).collect();
